@@ -1198,7 +1198,13 @@ func (e *Exec) numError(tag string) Value {
 	st := e.zero(typ).(*Struct)
 	st.F[0] = e.opaqueStr("func")
 	st.F[1] = e.opaqueStr("num")
-	st.F[2] = e.opaqueError(tag)
+	// the package's own sentinel (ErrRange, ErrSyntax, ...), so that comparisons with it - in strconv
+	// itself and in callers - see the same object
+	if g := pkg.Var(strings.TrimPrefix(tag, "strconv.")); g != nil {
+		st.F[2] = e.load(Ptr{Obj: e.globalObj(g)})
+	} else {
+		st.F[2] = e.opaqueError(tag)
+	}
 	o := e.newObj(typ, st)
 	return Ptr{Obj: o}
 }
